@@ -20,14 +20,15 @@ CONSTANTS MaxObjs, MaxCbs, MaxEnq, MaxFilters, Ops, Defects
 Objs == 1..MaxObjs
 Ch == 1..2
 VARIABLES obj,      \* [Objs -> [alive, lst: [Ch -> Seq(cb)], flt: Seq(filter id), pend: Seq(channel), ec, nc]]  ec/nc: the two counters
-          ncb, nflt, nenq, alias, bad, hist
-vars == <<obj, ncb, nflt, nenq, alias, bad, hist>>
-View == <<obj, ncb, nflt, nenq, alias, bad>>
+          ncb, nflt, nenq, alias, bad, hist,
+          hv        \* callback id -> the object whose handle (kept from the addition) still has a promised meaning, 0 = none
+vars == <<obj, ncb, nflt, nenq, alias, bad, hist, hv>>
+View == <<obj, ncb, nflt, nenq, alias, bad, hv>>
 Fixed(d) == d \notin Defects
 
 Dead == [alive |-> FALSE, lst |-> [c \in Ch |-> <<>>], flt |-> <<>>, pend |-> <<>>, ec |-> 0, nc |-> 0]
 Fresh == [Dead EXCEPT !.alive = TRUE]
-Init == /\ obj = [o \in Objs |-> IF o = 1 THEN Fresh ELSE Dead] /\ ncb = 0 /\ nflt = 0 /\ nenq = 0 /\ alias = {} /\ bad = "ok" /\ hist = <<>>
+Init == /\ obj = [o \in Objs |-> IF o = 1 THEN Fresh ELSE Dead] /\ ncb = 0 /\ nflt = 0 /\ nenq = 0 /\ alias = {} /\ bad = "ok" /\ hist = <<>> /\ hv = <<>>
 
 En(op) == op \in Ops
 H(op, a, b) == hist' = Append(hist, <<op, a, b>>)
@@ -77,9 +78,28 @@ OpDestroy(o) == /\ En("de") /\ Alive(o) /\ \E p \in Objs : p # o /\ Alive(p)
                 /\ obj' = [obj EXCEPT ![o] = Dead] /\ alias' = {x \in alias : x[1] # o /\ x[2] # o}
                 /\ UNCHANGED <<ncb, nflt, nenq, bad>> /\ H("de", o, 0)
 
-Next == \/ \E o \in Objs : \/ OpAppendFilter(o) \/ OpProcess(o) \/ OpEmptyQ(o) \/ OpWaitFor(o) \/ OpDestroy(o)
+\* ---- handles kept from the addition (seed S123).  The statement promises: copy assignment from itself and swap with itself change nothing, a copy is
+\* independent (the source's handles keep working on the source, whatever happens to the copy).  It does not say what the handles of an assignment's
+\* destination, of a moved-from / moved-to object or of two swapped objects mean afterwards: those are retired here, the others must keep working.
+Without(q, x) == SelectSeq(q, LAMBDA y : y # x)
+OpRemoveStored(i) == /\ En("rh") /\ i \in 1..Len(hv) /\ hv[i] # 0 /\ Alive(hv[i])
+                     /\ obj' = [p \in Objs |-> IF p \in Peers(hv[i]) THEN [obj[p] EXCEPT !.lst = [c \in Ch |-> Without(obj[p].lst[c], i)]] ELSE obj[p]]
+                     /\ UNCHANGED <<ncb, nflt, nenq, alias, bad>> /\ H("rh", hv[i], i)
+Retire(S) == [i \in 1..Len(hv) |-> IF hv[i] \in S THEN 0 ELSE hv[i]]
+HvStep == LET h == hist'[Len(hist')] IN
+          hv' = CASE h[1] = "al" -> Append(hv, h[2])
+                  [] h[1] = "ca" /\ h[2] # h[3] -> Retire({h[3]})
+                  [] h[1] = "mc" -> Retire({h[2]})
+                  [] h[1] = "ma" -> Retire({h[2], h[3]})
+                  [] h[1] = "sw" /\ h[2] # h[3] -> Retire({h[2], h[3]})
+                  [] h[1] = "de" -> Retire({h[2]})
+                  [] OTHER -> hv
+
+Next0 == \/ \E o \in Objs : \/ OpAppendFilter(o) \/ OpProcess(o) \/ OpEmptyQ(o) \/ OpWaitFor(o) \/ OpDestroy(o)
                            \/ \E c \in Ch : OpAppend(o, c) \/ OpRemoveFirst(o, c) \/ OpDispatch(o, c) \/ OpEnqueue(o, c)
                            \/ \E t \in Objs : OpCopyConstruct(o, t) \/ OpMoveConstruct(o, t) \/ OpCopyAssign(o, t) \/ OpMoveAssign(o, t) \/ OpSwap(o, t)
+         \/ \E i \in 1..MaxCbs : OpRemoveStored(i)
+Next == Next0 /\ HvStep
 Emit == PrintT(ToJson(hist'))
 
 Ok == bad = "ok"
